@@ -156,18 +156,26 @@ def createAttributeNodes (c : BCfg) (prepared : List PAttr) (i18nAttrs : List (S
   pure (nodes, dicts.map (fun (_, did, e) => (did, e)))
 
 /-- `convert_data_attributes(ns_attrs, attrs, namespaces)`; unknown prefix = `KeyError` -/
-def convertDataAttributes (nsAttrs : List ((Str × Str) × Tok)) (attrs : List Attr) (nsMap : NsMap) :
+def dataTarget (q : Quirks) (nsMap : NsMap) (dropNs : List Str) (a : Attr) : CRes (Option (Str × Str)) :=
+  if startsWith a.name.str (lit "data-") then
+    let name := a.name.str.drop 5
+    if !name.contains 45 then pure none else
+      let pfx := name.takeWhile (· != 45)
+      let rest := name.drop (pfx.length + 1)
+      match nsMap.get (some pfx) with
+      | none => if q.zipPairing then .error (.crash "KeyError") else pure none
+      | some uri => if q.zipPairing || dropNs.contains uri then pure (some (uri, rest)) else pure none
+  else pure none
+
+def convertStep (q : Quirks) (dropNs : List Str) (nsMap : NsMap) (acc : List ((Str × Str) × Tok) × List Attr) (a : Attr) :
+    CRes (List ((Str × Str) × Tok) × List Attr) := do
+  match ← dataTarget q nsMap dropNs a with
+  | some key => pure (odSet acc.1 key a.value, acc.2)
+  | none => pure (acc.1, acc.2 ++ [a])
+
+def convertDataAttributes (q : Quirks) (dropNs : List Str) (nsAttrs : List ((Str × Str) × Tok)) (attrs : List Attr) (nsMap : NsMap) :
     CRes (List ((Str × Str) × Tok) × List Attr) :=
-  attrs.foldlM (fun (acc : List ((Str × Str) × Tok) × List Attr) a =>
-    if startsWith a.name.str (lit "data-") then
-      let name := a.name.str.drop 5
-      if !name.contains 45 then pure (acc.1, acc.2 ++ [a]) else
-        let pfx := name.takeWhile (· != 45)
-        let rest := name.drop (pfx.length + 1)
-        match nsMap.get (some pfx) with
-        | none => .error (.crash "KeyError")
-        | some uri => pure (odSet acc.1 (uri, rest) a.value, acc.2)
-    else pure (acc.1, acc.2 ++ [a])) (nsAttrs, [])
+  attrs.foldlM (convertStep q dropNs nsMap) (nsAttrs, [])
 
 /-- order in which `wrap(inner, …)` nests the statement nodes: first listed = outermost -/
 inductive Wrapper | defineSlot | define | case_ | condition | repeat_ | switch | domain | context | target
@@ -211,7 +219,7 @@ where
 /-- `visit_element(start, end, children)`; `kids` visits the children (the recursive call) -/
 def elementCore (c : BCfg) (kids : List Item → BM (List Node)) (start : Elem) (end0 : Option Elem)
     (children : List Item) : BM Node := do
-    let (ns0, attrs) ← if c.enableDataAttributes then liftCB (convertDataAttributes start.nsAttrs start.tag.attrs start.nsMap)
+    let (ns0, attrs) ← if c.enableDataAttributes then liftCB (convertDataAttributes c.q dropNs start.nsAttrs start.tag.attrs start.nsMap)
                        else pure (start.nsAttrs, start.tag.attrs)
     -- decode entities of TAL/METAL attribute values
     let ns ← ns0.mapM (fun ((p, a), v) =>
@@ -310,7 +318,7 @@ def elementCore (c : BCfg) (kids : List Item → BM (List Node)) (start : Elem) 
         let i18nAttrs ← match get (I18N, lit "attributes") with
           | none => pure []
           | some cl => liftCB (i18nParseAttributes c.q cl)
-        let prepared ← match prepareAttributes c.q attrs talAttrs i18nAttrs ns dropNs with
+        let prepared ← match prepareAttributes c.q attrs talAttrs i18nAttrs (attrNamespace start.nsMap start.ns) ns dropNs with
           | some p => pure p
           | none => bCrash "IndexError"
         let (attrNodes, filtering) ← createAttributeNodes c prepared i18nAttrs
@@ -354,7 +362,7 @@ def elementCore (c : BCfg) (kids : List Item → BM (List Node)) (start : Elem) 
       let i18nAttrs ← match get (I18N, lit "attributes") with
         | none => pure []
         | some cl => liftCB (i18nParseAttributes c.q cl)
-      match prepareAttributes c.q attrs talAttrs i18nAttrs ns dropNs with
+      match prepareAttributes c.q attrs talAttrs i18nAttrs (attrNamespace start.nsMap start.ns) ns dropNs with
       | some p => pure (p.filterMap (fun pa => match pa.name with
           | some n => some (n, match pa.text with | some t => t.str | none => (pa.expr.map (·.str)).getD [])
           | none => none))
